@@ -403,3 +403,54 @@ Example C05_example_write_failure_close :
   pl_history_outcomes false 0 [PlEvStart 1; PlEvHold 2; PlEvStart 3; PlEvRelease 1 false true; PlEvStart 4] =
   ([(PlOErr, Some 0); (PlOErr, None); (PlOErr, Some 2); (PlOErr, None)], true).
 Proof. vm_compute. reflexivity. Qed.
+
+(* ====================================================================================================== *)
+(* Both select arms ready.  The exchange's Write may return late: the query is on the wire, the exchange has not  *)
+(* run its select; meanwhile the read loop delivers the reply into its channel AND the connection is closed.       *)
+(* In the LTS that is a state (pc Waiting, channel full, closed) in which LTakeReply and LConnArm are both         *)
+(* enabled - one of the schedules [reachable] quantifies over.                                                    *)
+(* ====================================================================================================== *)
+
+(* every message an exchange returns has the caller's id restored, whatever arm of the select it left through, and is
+   a message the read loop received under the exchange's own wire id *)
+Theorem C05_restored_id_every_arm : forall tcp q0 s t th r,
+  q0 <= 65536 -> reachable tcp q0 s ->
+  pl_tget s t = Some th -> pc_result (pl_tpc th) = Some (PlRMsg r) ->
+  pl_mhid r = pl_cid th /\
+  exists w, pl_twid th = Some w /\ In (pl_with_id r w) (pl_emitted s).
+Proof. exact restored_id_every_arm. Qed.
+Print Assumptions C05_restored_id_every_arm.
+
+(* with both arms ready, the reply arm returns the reply WITH the caller's id and the connection arm returns no
+   message (an error): no arm returns a message with another id *)
+Theorem C05_both_arms_ready : forall tcp q0 s t th m,
+  q0 <= 65536 -> reachable tcp q0 s ->
+  pl_tget s t = Some th -> pl_tpc th = PlPWaiting -> pl_tchan th = Some m -> pl_closed s = true ->
+  (exists s1 th1, pl_step s (PlLTakeReply t) = Some s1 /\ pl_tget s1 t = Some th1 /\
+     pc_result (pl_tpc th1) = Some (PlRMsg (pl_with_id m (pl_cid th)))) /\
+  (exists s2 th2, pl_step s (PlLConnArm t) = Some s2 /\ pl_tget s2 t = Some th2 /\
+     pc_result (pl_tpc th2) = Some PlRErrClosed).
+Proof. exact both_arms_ready. Qed.
+Print Assumptions C05_both_arms_ready.
+
+(* the runs of kind pipeline_arms are schedules of the LTS *)
+Theorem C05_arms_refines_small : forall tcp q0 evs c tag cf,
+  reachable tcp q0 (pl_both_arms c tag cf (pl_run_history tcp q0 evs)).
+Proof. exact arms_refines_small. Qed.
+Print Assumptions C05_arms_refines_small.
+
+(* non-vacuity: caller id 666, wire id 1; reply arm: M with id restored; connection arm: error *)
+Example C05_example_both_arms :
+  pl_arms_outcomes true 0 [PlEvStart 9; PlEvReplyTo 0 4] 666 50 false = ([(PlOMsg 4 true, Some 0); (PlOMsg 50 true, Some 1)], true) /\
+  pl_arms_outcomes true 0 [PlEvStart 9; PlEvReplyTo 0 4] 666 50 true = ([(PlOMsg 4 true, Some 0); (PlOErr, Some 1)], true).
+Proof. vm_compute. split; reflexivity. Qed.
+
+(* Why the restore must sit on every path that returns a message.  The variant "the connection arm returns a reply
+   that made it just before the close" (pl_ca_step) returns, on the both-arms-ready schedule, the reply with the WIRE
+   id 0 instead of the caller's 666. *)
+Theorem C05_conn_arm_reply_refuted :
+  exists s th r, pl_ca_run [PlLSpawn 666; PlLAdd 0; PlLWrite 0 true; PlLRecv 0 50; PlLLookup; PlLSend; PlLClose; PlLConnArm 0]
+                   (pl_init true 0) = Some s /\
+    pl_tget s 0 = Some th /\ pl_tpc th = PlPLeaving (PlRMsg r) /\ pl_cid th = 666 /\ pl_mhid r = 0 /\ pl_mtag r = 50.
+Proof. eexists. eexists. eexists. split; [vm_compute; reflexivity|]. vm_compute. repeat split; reflexivity. Qed.
+Print Assumptions C05_conn_arm_reply_refuted.
